@@ -123,23 +123,51 @@ def ensure_makefile():
             raise RuntimeError("coq_makefile failed: " + err)
 
 
+def coq_deps(vfile):
+    src = open(os.path.join(COQ, vfile)).read()
+    src = re.sub(r"\(\*.*?\*\)", "", src, flags=re.S)
+    deps = []
+    for m in re.finditer(r"From\s+RV\s+Require\s+(?:Import\s+|Export\s+)?((?:[A-Za-z_][A-Za-z0-9_']*(?:\.[A-Za-z_][A-Za-z0-9_']*)*\s*)+)\.", src):
+        for mod in m.group(1).split():
+            p = mod.replace(".", "/") + ".v"
+            if os.path.exists(os.path.join(COQ, p)) and p not in deps:
+                deps.append(p)
+    return deps
+
+
 def coq_cone(vfile):
-    """Transitive closure of the RV files a .v file depends on (paths relative to coq/), itself included."""
-    seen, todo = [], [vfile]
-    while todo:
-        f = todo.pop()
+    """Dependency cone of a .v file (paths relative to coq/), in compilation order (dependencies first)."""
+    order, seen = [], set()
+
+    def visit(f):
         if f in seen:
+            return
+        seen.add(f)
+        for d in coq_deps(f):
+            visit(d)
+        order.append(f)
+    visit(vfile)
+    return order
+
+
+def compile_cone(cone, force=(), timeout=900):
+    """coqc every out-of-date file of the cone, in order (full .vo, never -vos).  Returns (ok, log, failed_file)."""
+    log = ""
+    rebuilt = set()
+    for f in cone:
+        v, vo = os.path.join(COQ, f), os.path.join(COQ, f + "o")
+        stale = (f in force) or (not os.path.exists(vo)) or os.path.getmtime(vo) < os.path.getmtime(v) \
+            or any(d in rebuilt or os.path.getmtime(os.path.join(COQ, d + "o")) > os.path.getmtime(vo) for d in coq_deps(f))
+        if not stale:
             continue
-        seen.append(f)
-        src = open(os.path.join(COQ, f)).read()
-        for m in re.finditer(r"From\s+RV\s+Require\s+(?:Import|Export)?\s*([^.]*(?:\.[A-Za-z_][^.\s]*)*)\.", src):
-            pass
-        for m in re.finditer(r"From\s+RV\s+Require\s+(?:Import\s+|Export\s+)?((?:[A-Za-z_][A-Za-z0-9_']*(?:\.[A-Za-z_][A-Za-z0-9_']*)*\s*)+)\.", src):
-            for mod in m.group(1).split():
-                p = mod.replace(".", "/") + ".v"
-                if os.path.exists(os.path.join(COQ, p)):
-                    todo.append(p)
-    return seen
+        rc, out, err, _ = sh("timeout %d coqc -Q . RV %s" % (timeout, f), cwd=COQ, timeout=timeout + 30)
+        log += "COQC %s\n%s%s" % (f, out, err)
+        if rc != 0:
+            if os.path.exists(vo):
+                os.remove(vo)
+            return False, log, f
+        rebuilt.add(f)
+    return True, log, None
 
 
 def forbidden_scan(files):
@@ -155,7 +183,6 @@ def forbidden_scan(files):
 def build_props(pid, timeout=900):
     """Full .vo build of the dependency cone of props/<pid>.v, re-checking the statement file itself so that its
     Print Assumptions output is this run's.  Returns dict(ok, log, assumptions, obligations, discharged, files)."""
-    ensure_makefile()
     target = "props/%s.v" % pid
     cone = coq_cone(target)
     res = {"files": cone, "ok": False, "assumptions": "", "obligations": 0, "discharged": 0, "log": "", "failed": None}
@@ -164,19 +191,15 @@ def build_props(pid, timeout=900):
         res["log"] = "forbidden vernacular: " + "; ".join(bad)
         res["failed"] = "forbidden-vernacular"
         return res
-    vo = os.path.join(COQ, target + "o")
-    if os.path.exists(vo):
-        os.remove(vo)
-    rc, out, err, wall = sh("timeout %d make -j16 %s 2>&1" % (timeout, target + "o"), cwd=COQ, timeout=timeout + 30)
+    ok, out, failed = compile_cone(cone, force=(target,), timeout=timeout)
     res["log"] = out[-6000:]
     n = 0
     for f in cone:
         n += len(STMT.findall(re.sub(r"\(\*.*?\*\)", "", open(os.path.join(COQ, f)).read(), flags=re.S)))
     res["obligations"] = n
-    if rc != 0:
+    if not ok:
         m = re.search(r'File "\./([^"]+)", line (\d+)', out)
-        res["failed"] = "%s:%s" % (m.group(1), m.group(2)) if m else "make"
-        # count statements in files that did compile
+        res["failed"] = "%s:%s" % (m.group(1), m.group(2)) if m else failed
         d = 0
         for f in cone:
             if os.path.exists(os.path.join(COQ, f + "o")):
